@@ -46,7 +46,11 @@ func (p *P) Name() string { return "<" + p.name + ">" }
 const (
 	KS = "ks"
 	KN = 7
+	KF = 1.0 / 3
+	KP = 3.14159265
 )
+
+const KT float64 = 2.718281828
 
 var tr []int
 
@@ -133,8 +137,15 @@ func (p *c05) build(c fw.Case, r *fw.Rec) pairBuild {
 		case 23:
 			return c05val{src: "e2", val: "E#" + strings.Repeat("!", code), ty: "error"}
 		case 24:
-			if rnd.Bool() {
+			switch rnd.Intn(6) {
+			case 0, 1:
 				return c05val{src: "KS", val: "ks", ty: "string"} // untyped string constant
+			case 2:
+				return c05val{src: "KF", val: ff(1.0 / 3), ty: "float64"} // untyped float constants with many digits
+			case 3:
+				return c05val{src: "KP * 2", val: ff(3.14159265 * 2), ty: "float64"}
+			case 4:
+				return c05val{src: "KT", val: ff(2.718281828), ty: "float64"} // typed float constant
 			}
 			return c05val{src: "KN + 1", val: "8", ty: "int"} // untyped integer constant expression
 		case 30:
